@@ -2,6 +2,19 @@ import Pcore.Model.Format
 /-! Helper lemmas for C20: lengths of padded strings, digits. (Property theorems are in `Pcore/Props/C20.lean`.) -/
 namespace Pcore.Format
 
+instance : DecidableEq (Except Code Fmt) := fun a b =>
+  match a, b with
+  | .ok x, .ok y => if h : x = y then isTrue (by rw [h]) else isFalse (fun e => h (by cases e; rfl))
+  | .error x, .error y => if h : x = y then isTrue (by rw [h]) else isFalse (fun e => h (by cases e; rfl))
+  | .ok _, .error _ => isFalse (fun e => by cases e)
+  | .error _, .ok _ => isFalse (fun e => by cases e)
+
+/-- the Format record of a directive text (for examples; `simpleFmt 's'` when the text is not a directive) -/
+def parsed (d : String) : Fmt :=
+  match newFormat d.toList with
+  | .ok f => f
+  | .error _ => simpleFmt 's'
+
 @[simp] theorem spaces_length (n : Nat) : (spaces n).length = n := by simp [spaces]
 @[simp] theorem zeros_length (n : Nat) : (zeros n).length = n := by simp [zeros]
 
